@@ -104,6 +104,25 @@ EvRead ==
      /\ g' = [g EXCEPT !.gone = @ \cup Skipped(g, E.ctx, E.last, E.lim, ids)]
   /\ UNCHANGED <<b, owed, lost, imported, src, known>>
 
+(* a streaming read whose consumer stalled after E.k frames while the clock advanced by E.n: with a   *)
+(* delivery buffer of one frame the history thread has looked at no more than k + 2 frames by then, *)
+(* so everything from position k + 3 on was examined under the new clock (C09), nothing at all may *)
+(* be expired under the old one, and whatever is alive under the new clock must be there (C01 C08) *)
+EvSlowRead ==
+  /\ Is("slowread")
+  /\ LET ids == IdsOf(E.res)
+         g1 == [g EXCEPT !.clock = @ + E.n]
+         late == {ids[j] : j \in {j \in 1..Len(ids) : j >= E.k + 3}} \cap DOMAIN g.acc
+         base == ReadVerdict(g, E.ctx, E.last, E.lim, E.res) \ {"C08"}
+         \* judged under the old clock, except that frames may be missing only if the new clock explains it
+         v == (base \ (IF Skipped(g1, E.ctx, E.last, E.lim, ids) \subseteq g.evictable THEN {"C01"} ELSE {}))
+              \cup (IF \E i \in late : Expired(i, g.acc[i], g1.clock) THEN {"C09"} ELSE {})
+              \cup (IF \E p \in Skipped(g1, E.ctx, E.last, E.lim, ids) : p \notin g.evictable THEN {"C01", "C08"} ELSE {})
+     IN /\ Judge(v)
+        /\ met' = met \cup MetBy(g, E.ctx, E.last, E.lim, ids)
+        /\ g' = [g1 EXCEPT !.gone = @ \cup Skipped(g1, E.ctx, E.last, E.lim, ids)]
+  /\ UNCHANGED <<b, owed, lost, imported, src, known>>
+
 EvGet ==
   /\ Is("get")
   /\ Judge(GetVerdict(g, E.id, E.res)
@@ -213,12 +232,12 @@ EvCrash ==
 EvOther ==
   /\ l <= Len(Rec)
   /\ E.e \notin {"reset", "append", "import", "remove", "tick", "read", "get", "head", "dump", "drain",
-                 "reopen", "xfer_begin", "xfer_end", "panic", "crash", "bad", "followprobe", "cas"}
+                 "reopen", "xfer_begin", "xfer_end", "panic", "crash", "bad", "followprobe", "cas", "slowread"}
   /\ l' = l + 1
   /\ UNCHANGED <<b, g, met, owed, lost, imported, src, bad, known>>
 
 Next == Reset \/ EvAppend \/ EvImport \/ EvRemove \/ EvTick \/ EvRead \/ EvGet \/ EvHead \/ EvDump
-        \/ EvDrain \/ EvReopen \/ EvXferBegin \/ EvXferEnd \/ EvPanic \/ EvCrash \/ EvBad \/ EvFollowProbe \/ EvCas \/ EvOther
+        \/ EvDrain \/ EvReopen \/ EvXferBegin \/ EvXferEnd \/ EvPanic \/ EvCrash \/ EvBad \/ EvFollowProbe \/ EvCas \/ EvSlowRead \/ EvOther
 
 Spec == Init /\ [][Next]_tvars
 
